@@ -13,7 +13,7 @@ import time
 from . import vunit
 
 VERIF = vunit.VERIF
-KBUILD = os.path.join(vunit.BUILD, "kani")
+KBUILD = os.path.join(vunit.BUILD, "kani") if vunit.REPO == "/repo" else vunit.TARGET + "-kani"
 
 TRUSTED = [
     "Kani 0.68 / CBMC 6.11 (bit-precise model of the compiled MIR of the real crates)",
